@@ -390,6 +390,13 @@ type dirScen struct {
 	ParkCall  string
 	ParkAfter string
 	Op2       fcOp
+	// Op0 (optional): a third request, issued first (process 3), is the one that parks (in ParkCall);
+	// Op1 and then Op2 queue behind it on the fid's lock, in that order
+	Op0 fcOp
+}
+
+func ds(name string, pre []fcOp, op1 fcOp, parkCall, parkAfter string, op2 fcOp) dirScen {
+	return dirScen{Name: name, Pre: pre, Op1: op1, ParkCall: parkCall, ParkAfter: parkAfter, Op2: op2}
 }
 
 func directedScenarios() []dirScen {
@@ -401,7 +408,7 @@ func directedScenarios() []dirScen {
 			if op2 == "create" {
 				o2.Out = "dir"
 			}
-			l = append(l, dirScen{"during-walk-" + wo, nil, fcOp{"walk", 0, 5, wo}, "walk", "", o2})
+			l = append(l, ds("during-walk-" + wo, nil, fcOp{"walk", 0, 5, wo}, "walk", "", o2))
 		}
 	}
 	// every kind of request on a fid whose create is inside the file system: in Create itself, in the
@@ -410,23 +417,36 @@ func directedScenarios() []dirScen {
 		{"walk", 0, 4, "clone"}, {"walk", 0, 4, "ok"}, {"walkin", 0, 0, "ok"}, {"create", 0, 0, "dir"}, {"create", 0, 0, "ok"}, {"attach", 0, 0, "ok"}}
 	for _, o2 := range on0 {
 		for _, co := range []string{"ok", "dir", "dirfail", "fail"} {
-			l = append(l, dirScen{"during-create-" + co, nil, fcOp{"create", 0, 0, co}, "create", "", o2})
+			l = append(l, ds("during-create-" + co, nil, fcOp{"create", 0, 0, co}, "create", "", o2))
 		}
-		l = append(l, dirScen{"during-create-opendir-ok", nil, fcOp{"create", 0, 0, "dir"}, "opendir", "", o2})
-		l = append(l, dirScen{"during-create-opendir-fail", nil, fcOp{"create", 0, 0, "dirfail"}, "opendir", "", o2})
-		l = append(l, dirScen{"during-create-cleanup", nil, fcOp{"create", 0, 0, "dirfail"}, "clunk", "", o2})
+		l = append(l, ds("during-create-opendir-ok", nil, fcOp{"create", 0, 0, "dir"}, "opendir", "", o2))
+		l = append(l, ds("during-create-opendir-fail", nil, fcOp{"create", 0, 0, "dirfail"}, "opendir", "", o2))
+		l = append(l, ds("during-create-cleanup", nil, fcOp{"create", 0, 0, "dirfail"}, "clunk", "", o2))
 		// open is building its reply (Qid of the entry) after the file system opened the entry
-		l = append(l, dirScen{"during-open-reply", nil, fcOp{"open", 0, 0, "ok"}, "qid", "opendir", o2})
-		l = append(l, dirScen{"during-open", nil, fcOp{"open", 0, 0, "ok"}, "opendir", "", o2})
-		l = append(l, dirScen{"during-open-fail", nil, fcOp{"open", 0, 0, "fail"}, "opendir", "", o2})
+		l = append(l, ds("during-open-reply", nil, fcOp{"open", 0, 0, "ok"}, "qid", "opendir", o2))
+		l = append(l, ds("during-open", nil, fcOp{"open", 0, 0, "ok"}, "opendir", "", o2))
+		l = append(l, ds("during-open-fail", nil, fcOp{"open", 0, 0, "fail"}, "opendir", "", o2))
 		// an in-place walk releases the old entry
-		l = append(l, dirScen{"during-walkin-clunk", nil, fcOp{"walkin", 0, 0, "ok"}, "clunk", "", o2})
-		l = append(l, dirScen{"during-walkin", nil, fcOp{"walkin", 0, 0, "ok"}, "walk", "", o2})
+		l = append(l, ds("during-walkin-clunk", nil, fcOp{"walkin", 0, 0, "ok"}, "clunk", "", o2))
+		l = append(l, ds("during-walkin", nil, fcOp{"walkin", 0, 0, "ok"}, "walk", "", o2))
 		// clunk / remove inside the file system
-		l = append(l, dirScen{"during-clunk", nil, fcOp{"clunk", 0, 0, "ok"}, "clunk", "", o2})
-		l = append(l, dirScen{"during-remove-fail", nil, fcOp{"remove", 0, 0, "fail"}, "remove", "", o2})
+		l = append(l, ds("during-clunk", nil, fcOp{"clunk", 0, 0, "ok"}, "clunk", "", o2))
+		l = append(l, ds("during-remove-fail", nil, fcOp{"remove", 0, 0, "fail"}, "remove", "", o2))
 		// create's reply (Qid of the new entry) for a plain file
-		l = append(l, dirScen{"during-create-reply", nil, fcOp{"create", 0, 0, "ok"}, "qid", "create", o2})
+		l = append(l, ds("during-create-reply", nil, fcOp{"create", 0, 0, "ok"}, "qid", "create", o2))
+	}
+	// two requests queued on the fid's lock behind a slow one: the first of them unbinds the fid (its release may
+	// fail), the second must then find the fid gone
+	for _, o1 := range []fcOp{{"clunk", 0, 0, "ok"}, {"clunk", 0, 0, "fail"}, {"remove", 0, 0, "ok"}, {"remove", 0, 0, "fail"}, {"create", 0, 0, "dirfail"}} {
+		for _, o2 := range on0 {
+			l = append(l, dirScen{Name: "queued-behind-stat:" + o1.K + "-" + o1.Out, Op0: fcOp{"stat", 0, 0, "ok"}, ParkCall: "stat", Op1: o1, Op2: o2})
+		}
+	}
+	// the same on an open plain file, behind a slow read
+	for _, o1 := range []fcOp{{"clunk", 0, 0, "ok"}, {"clunk", 0, 0, "fail"}, {"remove", 0, 0, "fail"}} {
+		for _, o2 := range []fcOp{{"read", 0, 0, "ok"}, {"stat", 0, 0, "ok"}, {"open", 0, 0, "ok"}, {"walk", 0, 4, "clone"}, {"clunk", 0, 0, "ok"}} {
+			l = append(l, dirScen{Name: "queued-behind-read:" + o1.K + "-" + o1.Out, Pre: []fcOp{{"create", 0, 0, "ok"}}, Op0: fcOp{"read", 0, 0, "ok"}, ParkCall: "read", Op1: o1, Op2: o2})
+		}
 	}
 	return l
 }
@@ -438,8 +458,12 @@ func runDirected(run int, sc dirScen, res *hx.Result) []fcEvent {
 	release := make(chan struct{})
 	var pmu sync.Mutex
 	seenAfter, done := sc.ParkAfter == "", false
+	parker := 1
+	if sc.Op0.K != "" {
+		parker = 3
+	}
 	park := func(p int, call string, h *sfs.Handle) {
-		if p != 1 {
+		if p != parker {
 			return
 		}
 		pmu.Lock()
@@ -482,7 +506,11 @@ func runDirected(run int, sc dirScen, res *hx.Result) []fcEvent {
 		}
 	}
 	wg.Add(1)
-	go run1(1, sc.Op1)
+	if parker == 3 {
+		go run1(3, sc.Op0)
+	} else {
+		go run1(1, sc.Op1)
+	}
 	select {
 	case <-parked:
 	case <-time.After(3 * time.Second):
@@ -491,6 +519,11 @@ func runDirected(run int, sc dirScen, res *hx.Result) []fcEvent {
 		wg.Wait()
 		res.Add("steps_skipped", 1)
 		return nil
+	}
+	if parker == 3 {
+		wg.Add(1)
+		go run1(1, sc.Op1)
+		time.Sleep(3 * time.Millisecond) // Op1 queues first
 	}
 	wg.Add(1)
 	go run1(2, sc.Op2)
@@ -503,6 +536,59 @@ func runDirected(run int, sc dirScen, res *hx.Result) []fcEvent {
 	r.mu.Lock()
 	defer r.mu.Unlock()
 	return append([]fcEvent{}, r.events...)
+}
+
+// sameFidRace: several requests allocate the same new fid at the same moment (attach, and walks from an
+// existing fid).  Whatever such a client deserves, the session's accounting must hold: exactly one of them
+// binds the fid, and after clunk and Stop every entry the file system handed out has been released exactly once.
+func sameFidRace(rounds int, res *hx.Result) {
+	for r := 0; r < rounds && res.NViol() < 3; r++ {
+		fs := sfs.New()
+		fs.Decide = func(call string, h *sfs.Handle) sfs.Expect { return sfs.Expect{Call: call, Out: "ok", Dir: true} }
+		sess := p9p.SFileSys(fs)
+		ctx := context.Background()
+		sess.Attach(ctx, 0, p9p.NOFID, "u", "/")
+		const G = 6
+		var wg sync.WaitGroup
+		start := make(chan struct{})
+		var mu sync.Mutex
+		wins := 0
+		for g := 0; g < G; g++ {
+			wg.Add(1)
+			go func(g int) {
+				defer wg.Done()
+				<-start
+				var err error
+				if (g+r)%2 == 0 {
+					_, err = sess.Attach(ctx, 7, p9p.NOFID, "u", "/")
+				} else {
+					_, err = sess.Walk(ctx, 0, 7, "a")
+				}
+				if err == nil {
+					mu.Lock()
+					wins++
+					mu.Unlock()
+				}
+			}(g)
+		}
+		close(start)
+		wg.Wait()
+		sess.Clunk(ctx, 7)
+		sess.Clunk(ctx, 0)
+		sess.Stop(nil)
+		res.Evaluations++
+		rep := map[string]interface{}{"engine": "fidconc", "same_newfid_race": r}
+		if wins != 1 {
+			res.Violate("release", "same-newfid-race:winners", fmt.Sprintf("%d requests allocated fid 7 at the same moment and %d of them succeeded; a fid is bound by one request", G, wins), rep)
+			continue
+		}
+		for _, h := range fs.All {
+			if !h.Placeholder && h.Released() != 1 {
+				res.Violate("release", "same-newfid-race:release", fmt.Sprintf("%d requests allocated fid 7 at the same moment; after clunk of both fids and Stop entry#%d has been released %d times (every entry handed to the session must be released exactly once)", G, h.ID, h.Released()), rep)
+				break
+			}
+		}
+	}
 }
 
 func FidConc(args []string) {
@@ -565,6 +651,7 @@ func FidConc(args []string) {
 			}
 		}
 	}
+	sameFidRace(2000**reps, res)
 	res.Distinct = len(distinct)
 	res.Set("events", nev)
 	res.Set("directed_scenarios", nd)
